@@ -30,9 +30,9 @@ func (up *rtpUpConnection) VerifPC() *webrtc.PeerConnection { return up.pc }
 func (up *rtpUpConnection) VerifTracks() []*rtpUpTrack      { return up.getTracks() }
 func (up *rtpUpConnection) VerifClose() {
 	// as delUpConn does for a connection that is going away
-	up.mu.Lock()
+	simrt.Lock(&up.mu, "verif/VerifClose")
 	up.closed = true
-	up.mu.Unlock()
+	simrt.Unlock(&up.mu, "verif/VerifClose")
 	up.pc.Close()
 }
 
